@@ -210,19 +210,45 @@ func genOsLayer(rnd *hx.Rand, cfg hx.Config, forceKind string) (*osLayer, error)
 	site := rnd.Pick("opt/app/lib/python3.9/site-packages", "usr/local/lib/python3.9/site-packages", "opt/rh/rh-python38/root/usr/lib/python3.8/site-packages")
 	jdir := rnd.Pick("usr/share/java/", "opt/app/lib/", "usr/lib/jvm/ext/")
 	bdir := rnd.Pick("usr/bin/", "usr/sbin/", "usr/libexec/podman/")
-	goA := goBinary(rnd, goInfo{goVersion: "go1.21.5", path: "example.com/owned/cmd", mainPath: "example.com/owned", mainVersion: "v1.0.0", deps: []goMod{{path: "golang.org/x/sys", version: "v0.15.0"}}})
-	goB := goBinary(rnd, goInfo{goVersion: "go1.22.1", path: "example.com/free/cmd", mainPath: "example.com/free", mainVersion: "v1.2.3", deps: []goMod{{path: "github.com/pkg/errors", version: "v0.9.1"}}})
-	cands := []osCand{
-		{path: site + "/owned-2.0.egg-info/PKG-INFO", data: []byte("Metadata-Version: 1.1\nName: owned\nVersion: 2.0\n"), owned: true, eco: "python"},
-		{path: site + "/free-2.1.egg-info/PKG-INFO", data: []byte("Metadata-Version: 1.1\nName: free\nVersion: 2.1\n"), eco: "python"},
-		{path: "usr/lib/node_modules/owned/package.json", data: renderPackageJSON(rnd, "owned", "1.0.0"), owned: true, eco: "nodejs"},
-		{path: "usr/lib/node_modules/free/package.json", data: renderPackageJSON(rnd, "free", "1.0.1"), eco: "nodejs"},
-		{path: "usr/share/gems/specifications/owned-1.0.0.gemspec", data: renderGemspec(rnd, "owned", "1.0.0"), owned: true, eco: "ruby"},
-		{path: "usr/share/gems/specifications/free-1.0.1.gemspec", data: renderGemspec(rnd, "free", "1.0.1"), eco: "ruby"},
-		{path: jdir + "owned-1.0.jar", data: renderJar(rnd, "org.example", "owned", "1.0"), owned: true, eco: "java"},
-		{path: jdir + "free-1.1.jar", data: renderJar(rnd, "org.example", "free", "1.1"), eco: "java"},
-		{path: bdir + "owned", data: goA, owned: true, eco: "gobin", mode: 0o755},
-		{path: rnd.Pick(bdir, "usr/local/bin/") + "free", data: goB, eco: "gobin", mode: 0o755},
+	// per ecosystem one or two owned and one or two unowned files, under names of any order (a
+	// scanner asks about its candidates in walk order: which of them it asks about first, and
+	// so while the database is still being loaded, must not matter)
+	var cands []osCand
+	used := map[string]bool{}
+	name := func() string {
+		for {
+			n := randFrom(rnd, "abcdefghijklmnopqrstuvwxyz", 1) + randFrom(rnd, "abcdefghijklmnopqrstuvwxyz0123456789", 2+rnd.Intn(5))
+			if !used[n] {
+				used[n] = true
+				return n
+			}
+		}
+	}
+	for _, owned := range []bool{true, false} {
+		for _, eco := range []string{"python", "nodejs", "ruby", "java", "gobin"} {
+			for k := 1 + rnd.Intn(2); k > 0; k-- {
+				n := name()
+				c := osCand{owned: owned, eco: eco}
+				switch eco {
+				case "python":
+					c.path, c.data = site+"/"+n+"-2.0.egg-info/PKG-INFO", []byte("Metadata-Version: 1.1\nName: "+n+"\nVersion: 2.0\n")
+				case "nodejs":
+					c.path, c.data = "usr/lib/node_modules/"+n+"/package.json", renderPackageJSON(rnd, n, "1.0.0")
+				case "ruby":
+					c.path, c.data = "usr/share/gems/specifications/"+n+"-1.0.0.gemspec", renderGemspec(rnd, n, "1.0.0")
+				case "java":
+					c.path, c.data = jdir+n+"-1.0.jar", renderJar(rnd, "org.example", n, "1.0")
+				case "gobin":
+					d := bdir
+					if !owned && rnd.Chance(1, 2) {
+						d = "usr/local/bin/"
+					}
+					c.path, c.mode = d+n, 0o755
+					c.data = goBinary(rnd, goInfo{goVersion: "go1.21.5", path: "example.com/" + n + "/cmd", mainPath: "example.com/" + n, mainVersion: "v1.0.0", deps: []goMod{{path: "golang.org/x/sys", version: "v0.15.0"}}})
+				}
+				cands = append(cands, c)
+			}
+		}
 	}
 	// an arbitrary subset of the ecosystems, at least one
 	keep := map[string]bool{}
@@ -310,7 +336,7 @@ func genOsLayer(rnd *hx.Rand, cfg hx.Config, forceKind string) (*osLayer, error)
 		ents = append(ents, ent{path: dbPath, data: f})
 	}
 	// decoys named like databases: the search opens them to look at the magic number
-	decoys := []string{"aaa/doc/Packages", "zzz/repo/Packages.db"}
+	decoys := []string{rnd.Pick("aaa", "zzy") + "/doc/Packages", "zzz/repo/Packages.db"}
 	for _, d := range decoys {
 		ents = append(ents, ent{path: d, data: []byte("Package: not-a-database\nVersion: 1\nDescription: a Debian-style package index, not rpm's\n")})
 	}
@@ -544,6 +570,11 @@ func (ol *osLayer) concurrent(rnd *hx.Rand, scs []osScanner, k int) []string {
 	g.arm(k)
 	ctx, cancel := context.WithCancel(context.Background())
 	defer cancel()
+	// every scanner once, some of them a second time (two index requests sharing the layer)
+	scs = append([]osScanner(nil), scs...)
+	for n := rnd.Intn(3); n > 0; n-- {
+		scs = append(scs, scs[rnd.Intn(len(scs))])
+	}
 	first := rnd.Intn(len(scs))
 	results := make([]osResult, len(scs))
 	var wg sync.WaitGroup
